@@ -23,7 +23,7 @@
   and the returned ratio (floating point).
 -/
 import PS.Proofs.Splitter
-import PS.Proofs.SplitterFrag7
+import PS.Proofs.SplitterFrag9
 namespace PS.Sp
 open PS PS.G
 
@@ -206,6 +206,32 @@ example : (∀ n ∈ [exNodeFa, exNodeFb], Valid exG.g n) ∧ PrefixFree [exNode
   · unfold PrefixFree; decide +kernel
 /-- the fragment of `[f a ·, f b ·]` has the 4 derivations `f a a, f a b, f b a, f b b` -/
 example : ((pcfgFrom exG [exNodeFa, exNodeFb] 10).map (fun fr => (derivations fr.g 6).length)) = some 4 := by
+  decide +kernel
+
+/-- **probabilities in a fragment.**  Under the hypotheses of `C08_fragment_lang`, if moreover every
+    row of the weight table of the original grammar sums to 1 (`tagsNorm`: the grammar is
+    normalised), the probability carried by every node of the group is the probability of its
+    derivation prefix (`C08_node_prob`: an invariant of the node splitting) and is positive, then
+    every derivation of the fragment has, in the fragment (start weight × rule weights after
+    `normalise`), its original probability divided by the mass of the group (the sum of the
+    probabilities of its nodes, i.e. the total original probability of the fragment's programs,
+    `C08_mass`). -/
+theorem C08_fragment_prob (pg : PUG U) (group : List (Node U)) (hpf : PrefixFree group) (hn : tagsNorm pg = true)
+    (hprob : ∀ n ∈ group, n.prob = derivProb pg n.start n.steps) (hpos : ∀ n ∈ group, 0 < n.prob)
+    (fuel : Nat) (frag : PUG (U × Nat))
+    (h : pcfgFrom pg group fuel = some frag) (hfuel : fillDone pg group fuel = true)
+    (X : UNT (U × Nat)) (w' : List (Step (U × Nat))) (hd : Deriv frag.g X w') :
+    derivProb frag X w' = derivProb pg (er X) (w'.map erStep) / (group.map (·.prob)).sum := by
+  obtain ⟨st, hst, rfl, htf⟩ := pcfgFrom_some h hfuel
+  obtain ⟨L, stG, hf, hi, hsp, hpr⟩ := facts_of_pcfgFrom hpf hst htf
+  exact frag_prob hf hi hsp hpr hpf hn hprob hpos hd
+
+example : tagsNorm exG = true ∧ (∀ n ∈ [exNodeFa, exNodeFb], n.prob = derivProb exG n.start n.steps ∧ 0 < n.prob) := by
+  decide +kernel
+/-- the four derivations of the fragment of `[f a ·, f b ·]` (mass 3/4) have probability
+    (3/4 · 1/2 · 1/2) / (3/4) = 1/4 each -/
+example : ((pcfgFrom exG [exNodeFa, exNodeFb] 10).map (fun fr =>
+    (derivations fr.g 6).map (fun d => derivProb fr d.1 d.2))) = some [1/4, 1/4, 1/4, 1/4] := by
   decide +kernel
 
 end PS.Sp
